@@ -70,15 +70,17 @@ type Task struct {
 	timedOut bool
 
 	// controller side
-	weight      float64
-	seenState   int
-	blocked     bool // natively blocked (running after Wait)
-	wasBlocked  bool
-	sendBlocked bool
-	started     bool
-	startSeq    int
-	lastSite    string
-	rec         *ReqRec
+	weight          float64
+	seenState       int
+	blocked         bool // natively blocked (running after Wait)
+	wasBlocked      bool
+	sendBlocked     bool
+	prevSendBlocked bool
+	atRecv          bool
+	started         bool
+	startSeq        int
+	lastSite        string
+	rec             *ReqRec
 }
 
 func goid() uint64 {
